@@ -23,6 +23,7 @@
 #include <Bpp/Numeric/VectorTools.h>
 
 #include <cmath>
+#include <cstring>
 #include <limits>
 #include <set>
 
@@ -415,6 +416,47 @@ template<class T> struct Runner
         });
       }
     }
+    else if (op == "MeanW" || op == "VarW" || op == "CovW")
+    {
+      // weighted mean / variance / covariance on the dyadic-exact cases, every flag combination.
+      // k = (unbiased, normalize, pre) [MeanW: (normalize, pre)]; weights are the integers of the
+      // weight register, divided by their sum first when pre = 1.
+      SKIP_UNLESS(isDouble());
+      const V& wr = (op == "CovW") ? z : y;
+      const V& yr = (op == "CovW") ? y : x;
+      const bool unb = op == "MeanW" ? false : k[0] != 0;
+      const bool nz = (op == "MeanW" ? k[0] : k[1]) != 0;
+      const bool pre = (op == "MeanW" ? k[1] : k[2]) != 0;
+      long double W = 0, W2 = 0, wmax = 0;
+      for (const auto& e : wr)
+      {
+        ok = ok && e >= 0 && static_cast<double>(e) == std::floor(static_cast<double>(e));
+        W += e;
+        W2 += static_cast<long double>(e) * e;
+        wmax = std::max(wmax, static_cast<long double>(e));
+      }
+      SKIP_UNLESS(ok && (W == 1 || W == 2 || W == 4 || W == 8) && (nz || pre) && (!unb || W * W - W2 > 0));
+      FIT_UNLESS(4096.0L * n * (2 * W * ax + 1) * (2 * W * amax(yr) + 1) * wmax <= 1e9L);
+      std::vector<double> dx(x.begin(), x.end()), dy(yr.begin(), yr.end()), dw;
+      for (const auto& e : wr) dw.push_back(pre ? static_cast<double>(e) / static_cast<double>(W) : static_cast<double>(e));
+      if (op == "MeanW")
+        oc = run([&] {
+          double m = VT::template mean<double, double>(dx, dw, nz);
+          r = Arr().add(dyad(m, 4)).add(m != m ? 1 : 0).j();
+        });
+      else if (op == "CovW")
+        oc = run([&] {
+          double cv = VT::template cov<double, double>(dx, dy, dw, unb, nz);
+          r = Arr().add(dyad(cv, 12)).add(cv != cv ? 1 : 0).j();
+        });
+      else
+        oc = run([&] {
+          double va = VT::template var<double, double>(dx, dw, unb, nz);
+          double cv = VT::template cov<double, double>(dx, dx, dw, unb, nz);
+          double sd = VT::template sd<double, double>(dx, dw, unb, nz);
+          r = Arr().add(dyad(va, 12)).add(va != va ? 1 : 0).add(va < 0 ? 1 : 0).add(std::memcmp(&va, &cv, sizeof va) == 0 ? 1 : 0).add(sd != sd ? 1 : 0).j();
+        });
+    }
     if (oc.o.empty())
     {
       fprintf(stderr, "drv_vector: unknown op %s\n", op.c_str());
@@ -497,6 +539,15 @@ template<class T> struct Runner
           for (const char* op : pure) call(op, "a", "b");
         for (const char* op : pureSet) call(op, "a", "b");
         if (!setlikeOnly)
+          for (long u = 0; u <= 1; ++u)
+            for (long nzf = 0; nzf <= 1; ++nzf)
+              for (long pr = 0; pr <= 1; ++pr)
+              {
+                if (u == 0) call("MeanW", "a", "b", "-", {nzf, pr});
+                call("VarW", "a", "b", "-", {u, nzf, pr});
+                call("CovW", "a", "a", "b", {u, nzf, pr});
+              }
+        if (!setlikeOnly)
           for (const char* op : mut)
           {
             call(op, "a", "b");
@@ -548,6 +599,7 @@ template<class T> struct Runner
     if (cls < 4) len = rng.below(65); // anything up to 64
     else if (cls < 6) { len = rng.below(9); lo = -3; hi = 3; } // products stay small
     else if (cls < 8) { len = size_t(1) << rng.below(5); } // 1,2,4,8,16: exact moments
+    else if (cls < 9 && rng.coin()) { len = 1 + rng.below(6); lo = -4; hi = 4; } // data of the weighted moments
     else if (cls < 9) { len = rng.below(11); lo = 0; hi = 1664; } // p-value numerators
     else len = rng.below(4);
     std::vector<long> anchors;
@@ -580,12 +632,21 @@ template<class T> struct Runner
         {
           // make two registers comparable: same length, a permutation, a subset, valid positions
           V v = regs[x];
-          size_t how = rng.below(5);
+          size_t how = rng.below(7);
           if (how == 0) { for (size_t j = v.size(); j > 1; --j) std::swap(v[j - 1], v[rng.below(j)]); }
           else if (how == 1) { for (auto& e : v) if (rng.chance(1, 4)) e = static_cast<T>(rng.range(-50, 50)); }
           else if (how == 2) { V w; for (const auto& e : v) if (rng.coin()) w.push_back(e); v = w; }
           else if (how == 3) { V w; size_t m = rng.below(8); for (size_t j = 0; j < m && !v.empty(); ++j) w.push_back(static_cast<T>(rng.below(v.size()))); v = w; }
-          else v = randomVector(rng);
+          else if (how == 4) v = randomVector(rng);
+          else
+          {
+            // integer weights for x: non-negative, summing to 1, 2, 4 or 8 (sometimes one entry too many)
+            size_t m = v.size() + (rng.chance(1, 12) ? 1 : 0);
+            long Wt = 1L << rng.below(4);
+            V w(m, T(0));
+            for (long q = 0; q < Wt && m > 0; ++q) w[rng.below(m)] += T(1);
+            v = w;
+          }
           set(y, v);
         }
         else if (pick < 14) set(x, randomVector(rng));
@@ -601,6 +662,26 @@ template<class T> struct Runner
         else if (pick < 88)
         {
           std::string op = b2[rng.below(sizeof b2 / sizeof *b2)];
+          if (rng.chance(1, 6))
+          {
+            // weighted moments: small data in x (and z), integer weights summing to 1, 2, 4 or 8 in y
+            size_t m = 1 + rng.below(6);
+            V dxv, dzv, w(m + (rng.chance(1, 12) ? 1 : 0), T(0));
+            for (size_t j = 0; j < m; ++j) { dxv.push_back(static_cast<T>(rng.range(-4, 4))); dzv.push_back(static_cast<T>(rng.range(-4, 4))); }
+            if (rng.chance(1, 12)) dzv.push_back(T(1));
+            long Wt = 1L << rng.below(4);
+            for (long q = 0; q < Wt; ++q) w[rng.below(w.size())] += T(1);
+            set(x, dxv);
+            set(y, w);
+            if (rng.coin()) set(z, dzv);
+            call("MeanW", x, y, "-", {rng.range(0, 1), rng.range(0, 1)});
+            for (int rep2 = 0; rep2 < 2; ++rep2)
+            {
+              call("VarW", x, y, "-", {rng.range(0, 1), rng.range(0, 1), rng.range(0, 1)});
+              call("CovW", x, z, y, {rng.range(0, 1), rng.range(0, 1), rng.range(0, 1)});
+            }
+            continue;
+          }
           bool constArgs = op == "Add" || op == "Sub" || op == "Mul" || op == "SumProd" || op == "Scalar" || op == "Kron" || op == "Union" || op == "Inter" || op == "SameC";
           call(op, x, (constArgs && rng.chance(1, 8)) ? x : y);
         }
@@ -660,11 +741,58 @@ static void logEvent(const std::string& op, const std::vector<double>& pool, con
       if (pool[i] == e) return static_cast<long>(i);
     return -1;
   };
+  // multiplicity of the maximum: each tied entry adds a full 1 to the shifted sum, so
+  // r >= max + log(k) (- log n for the mean); 4 ulps of slack for other summation orders / log1p forms
+  long kmul = 0;
+  for (double e : v) if (e == M) ++kmul;
+  double lbk = M + std::log(static_cast<double>(kmul));
+  if (op == "LogMeanExp") lbk = lbk - std::log(v.size());
+  for (int i = 0; i < 4; ++i) lbk = std::nextafter(lbk, -inf);
+  // a second entry within 30 of a moderate maximum must lift the result strictly above the lower bound
+  bool near = false;
+  if (v.size() >= 2 && std::fabs(M) <= 100.0)
+  {
+    bool skippedOne = false;
+    for (double e : v)
+    {
+      if (e == M && !skippedOne) { skippedOne = true; continue; }
+      if (e - M >= -30.0) near = true;
+    }
+  }
+  // shift by an amount that is added exactly to every finite entry (TwoSum error term is zero)
+  bool sha = false, sh = false;
+  if ((op == "LogSumExp" || op == "LogMeanExp" || op == "LogSum2") && !v.empty() && std::isfinite(M) && oc.o == "ok")
+  {
+    static const double shifts[] = {8.0, -16.0, 0.5, 1024.0, -0.25};
+    long hsum = 0;
+    for (long i : vi) hsum += i;
+    const double cs = shifts[(static_cast<size_t>(hsum) + v.size()) % 5];
+    std::vector<double> vs;
+    sha = true;
+    for (double e : v)
+    {
+      if (std::isinf(e)) { vs.push_back(e); continue; }
+      double sm = e + cs, bb = sm - e, err = (e - (sm - bb)) + (cs - bb);
+      if (err != 0.0) sha = false;
+      vs.push_back(sm);
+    }
+    if (sha)
+    {
+      double r2 = 0;
+      Out o2;
+      if (op == "LogSumExp") o2 = run([&] { r2 = VT::logSumExp(vs); });
+      else if (op == "LogMeanExp") o2 = run([&] { r2 = VT::logMeanExp(vs); });
+      else o2 = run([&] { r2 = bpp::NumTools::logsum(vs[0], vs[1]); });
+      double scale = std::max(std::max(std::fabs(r), std::fabs(r2)), std::fabs(cs));
+      sh = o2.o == "ok" && std::fabs(r2 - (r + cs)) <= 8.0 * std::numeric_limits<double>::epsilon() * scale;
+    }
+  }
   Obj f;
   bool okk = oc.o == "ok";
   f.kv("nan", okk && r != r).kv("fin", okk && std::isfinite(r)).kv("ri", okk ? indexOf(r) : -1L).kv("mi", v.empty() ? -1L : indexOf(M));
   f.kv("zero", okk && r == 0.0).kv("c1", okk && lo <= r).kv("c2", okk && r <= hi);
   f.kv("wm", static_cast<long long>(wm * 4)).kv("w", static_cast<long long>(W * 4)).kv("eo", std::isinf(std::exp(M)));
+  f.kv("k", kmul).kv("c3", okk && lbk <= r).kv("near", near).kv("c4", okk && r > lo).kv("sha", sha).kv("sh", sh);
   Obj e;
   e.kv("e", "Log").kv("op", op).kv("v", arrOf(vi)).kv("w", arrOf(wi)).kv("P", pool.size()).kv("o", oc.o).kv("c", oc.c).kv("f", f);
   tracer().emit(e);
